@@ -1,0 +1,113 @@
+//go:build verif
+
+package tracking
+
+import (
+	"fmt"
+	"go/printer"
+
+	"github.com/monshunter/goat/pkg/config"
+	"github.com/monshunter/goat/pkg/diff"
+)
+
+// Verification hooks (build tag verif): thin exported wrappers, no behaviour of their own.
+
+// VerifTrackResult is what one real Track() run did.
+type VerifTrackResult struct {
+	Multi   [][2]int // sorted unique (line, column) multi-line insert positions
+	Single  [][2]int // single-line insert positions as left by doInsert (lines shifted)
+	Count   int
+	Content string
+	Err     string // error text, "panic: ..." for a panic, "" otherwise
+	Stage   string // "new" | "addStmts" | "import" : where Err arose
+}
+
+// VerifTrack runs NewIncrementalTrack + the statement pass + the import pass like Track(),
+// and reports the insert positions that Track() resets before returning.
+func VerifTrack(basePath string, fc *diff.FileChange, gran config.Granularity, pc *printer.Config) (res VerifTrackResult) {
+	defer func() {
+		if r := recover(); r != nil {
+			res.Err = fmt.Sprintf("panic: %v", r)
+		}
+	}()
+	res.Stage = "new"
+	t, err := NewIncrementalTrack(basePath, fc, "", nil, gran, pc)
+	if err != nil {
+		res.Err = err.Error()
+		return
+	}
+	res.Stage = "addStmts"
+	t.insertedPositions.Reset()
+	t.singleLineInsertedPositions.Reset()
+	clear(t.visitedInsertedPositions)
+	content, err := t.addStmts()
+	res.Count = t.count
+	for _, p := range t.insertedPositions {
+		res.Multi = append(res.Multi, [2]int{p.line, p.column})
+	}
+	for _, p := range t.singleLineInsertedPositions {
+		res.Single = append(res.Single, [2]int{p.line, p.column})
+	}
+	if err != nil {
+		res.Err = err.Error()
+		return
+	}
+	res.Content = string(content)
+	// the whole thing once more through the public entry point (import pass included)
+	res.Stage = "import"
+	t2, err := NewIncrementalTrack(basePath, fc, "", nil, gran, pc)
+	if err != nil {
+		res.Err = err.Error()
+		return
+	}
+	n, err := t2.Track()
+	if err != nil {
+		res.Err = err.Error()
+		return
+	}
+	if n != res.Count {
+		res.Err = fmt.Sprintf("count differs between runs: %d vs %d", res.Count, n)
+		return
+	}
+	res.Content = string(t2.Content())
+	res.Stage = ""
+	return
+}
+
+// VerifScope is a TrackScope tree node.
+type VerifScope struct {
+	Start, End int
+	Children   []VerifScope
+}
+
+func verifScope(t TrackScope) VerifScope {
+	s := VerifScope{Start: t.StartLine, End: t.EndLine}
+	for _, c := range t.Children {
+		s.Children = append(s.Children, verifScope(c))
+	}
+	return s
+}
+
+// VerifScopes exposes FunctionScopesOfAST and TrackScopesOfAST.
+func VerifScopes(filename string, content []byte) (funcs [][2]int, tracks []VerifScope, errText string) {
+	defer func() {
+		if r := recover(); r != nil {
+			errText = fmt.Sprintf("panic: %v", r)
+		}
+	}()
+	fs, err := FunctionScopesOfAST(filename, content)
+	if err != nil {
+		return nil, nil, err.Error()
+	}
+	for _, f := range fs {
+		funcs = append(funcs, [2]int{f.StartLine, f.EndLine})
+	}
+	ts, err := TrackScopesOfAST(filename, content)
+	if err != nil {
+		return funcs, nil, err.Error()
+	}
+	for _, t := range ts {
+		tracks = append(tracks, verifScope(t))
+	}
+	return
+}
